@@ -142,7 +142,7 @@ func provTags(v ssa.Value) map[string]bool {
 					return
 				}
 				if par, ok := c.(*ssa.Parameter); ok {
-					if par.Name() == "options" {
+					if namedOf(par.Type()) == "gen.HandshakeOptions" {
 						tags["local"] = true
 					}
 					return
@@ -496,7 +496,7 @@ func c15Result(p *load.Program, r *core.Report) {
 			side := "?"
 			switch b := base.(type) {
 			case *ssa.Parameter:
-				if b.Name() == "options" {
+				if namedOf(b.Type()) == "gen.HandshakeOptions" {
 					side = "local"
 				}
 			case *ssa.Extract:
@@ -517,7 +517,7 @@ func c15Result(p *load.Program, r *core.Report) {
 						case *ssa.TypeAssert:
 							side = "peer"
 						case *ssa.Parameter:
-							if v.Name() == "options" {
+							if namedOf(v.Type()) == "gen.HandshakeOptions" {
 								side = "local"
 							}
 						}
@@ -770,7 +770,7 @@ func c15Permissions(p *load.Program, r *core.Report) {
 		// source argument is the function's `source` parameter
 		srcOK := false
 		for _, a := range lookup.Common().Args {
-			if pa, ok := a.(*ssa.Parameter); ok && pa.Name() == "source" {
+			if pa, ok := a.(*ssa.Parameter); ok && pa == lastParamOfKinds(f, "gen.Atom") {
 				srcOK = true
 			}
 		}
